@@ -911,7 +911,14 @@ loop:
 
 				// if the client has more open streams than the maximum allowed OR
 				//   the connection is closing, then refuse the stream
-				if openStreams >= int(sc.st.maxStreams) || wasClosing {
+				// Only a request can be refused, and only one that is in order:
+				// any other frame on an id that names no stream, and HEADERS on
+				// an id below the latest, is judged by the state of that stream
+				// below, at the limit as under it. Refused here, WINDOW_UPDATE or
+				// DATA on an idle stream came back as a stream error for as
+				// long as the handlers were busy, and was a connection error
+				// (RFC 7540 5.1) the moment one of them returned.
+				if (openStreams >= int(sc.st.maxStreams) || wasClosing) && fr.Type() == FrameHeaders && fr.Stream() > sc.lastID {
 					if sc.debug {
 						if wasClosing {
 							sc.logger.Printf("Closing the connection. Rejecting stream %d\n", fr.Stream())
@@ -926,9 +933,7 @@ loop:
 					// The stream is closed by that reset, without ever having
 					// been the latest, and what follows the refused HEADERS is
 					// already on its way when the peer learns of the refusal.
-					if fr.Type() == FrameHeaders {
-						markClosed(fr.Stream(), true)
-					}
+					markClosed(fr.Stream(), true)
 
 					// The frame itself still counts: DATA was sent against the
 					// connection window, and a header block was encoded against
